@@ -32,6 +32,8 @@ def exact_acceptable(r, budget):
     ll = math.log(float(lim))
     if abs(lq - ll) < 0.005 * max(1.0, abs(ll)):
         return None
+    if chargen.float_decision_band(r, budget):
+        return None
     return lq <= ll
 
 
